@@ -213,9 +213,10 @@ def main():
     # 3. invalid values / unknown options must stop start-up with an error
     for bad in (["--pika:threads=0"], ["--pika:threads=%d" % (NPU + 1)], ["--pika:threads=abc"], ["--pika:scheduler=nonsense"], ["--pika:bind=nonsense"],
                 ["--pika:foo=1"], ["--pika:process-mask=zz"], ["--pika:ini=pika.stacks.small_size=abc"],
+                ["--pika:process-mask=" + hex((1 << NPU) | 1)], ["--pika:process-mask=" + hex(1 << (NPU + 3))],    # bits past the last PU (with / without a valid bit)
                 ["--pika:ini=pika.stacks.medium_size=abc"], ["--pika:ini=pika.stacks.large_size=abc"], ["--pika:ini=pika.stacks.huge_size=lots"]):
         cases.append({"kind": "invalid", "args": bad, "env": {}})
-    for badenv in ({"PIKA_THREADS": "0"}, {"PIKA_THREADS": "abc"}, {"PIKA_SCHEDULER": "nonsense"}, {"PIKA_COMMANDLINE_OPTIONS": "--pika:foo=1"}):
+    for badenv in ({"PIKA_PROCESS_MASK": hex((1 << NPU) | 1)}, {"PIKA_THREADS": "0"}, {"PIKA_THREADS": "abc"}, {"PIKA_SCHEDULER": "nonsense"}, {"PIKA_COMMANDLINE_OPTIONS": "--pika:foo=1"}):
         cases.append({"kind": "invalid", "args": [], "env": badenv})
     # 4. non-pika arguments reach the application: positional arguments in order, application options as a multiset
     for extra in (["alpha", "beta"], ["alpha", "--app-opt=7", "beta"], ["--app-flag", "x", "--pika:threads=2", "y"], ["a b", "c"], []):
